@@ -68,6 +68,19 @@ CLAIMED.update({
         ref='§4 C17'),
 })
 
+CLAIMED.update({
+    'C06': dict(
+        text='Theorems (every document, every column): prettyPrint applied to json.dumps equals the structural rendering that adds '
+             'spaces only between the colon after a COMPLETE key and the value; the escape-aware key scan stops at the closing quote of the '
+             'key whatever it contains; string list elements are never aligned; loads(prettyPrint n (dumps d)) = d for every document with '
+             'distinct keys and surrogate-pair-free strings; the --all-pels framing parses back to the list. Correspondence: json.dumps, '
+             'prettyPrint and json.loads of CPython compared character for character / value for value with the model on random adversarial '
+             'documents, raw lines and mutated texts; the property is checked directly with the real json.loads on the real output.',
+        note=BASE + 'Floats/NaN/Infinity are outside the model. The document hypothesis `wf` (distinct keys per object; no high surrogate directly followed by a low surrogate) is what Python dicts and json.loads/bytes.decode produce.',
+        technique='Lean 4 proof (escape-aware scan lemma, line classification, recursive-descent parser inversion with a fuel measure) + differential correspondence',
+        ref='§4 C06'),
+})
+
 PENDING = {
 }
 
